@@ -32,7 +32,7 @@ def choose_horizon(rng, ref, x0, theta, targets=(5, 30, 150), tmax=10.0):
     return float(min(tmax, k / max(tot, 0.1)))
 
 
-def check_path(path, x0, t0, V, exact, horizon=None, limits=None, closed=False, steplog=None, tag=""):
+def check_path(path, x0, t0, V, exact, horizon=None, limits=None, closed=False, steplog=None, tag="", drift=False):
     """Offline legal-walk checker over one raw path. Returns (violations, stats)."""
     X, J, T, dT = [np.asarray(a) for a in path]
     bad = []
@@ -73,7 +73,9 @@ def check_path(path, x0, t0, V, exact, horizon=None, limits=None, closed=False, 
         v("exact mode: a step does not report exactly one event", step=k, counts=Jf[k].tolist())
     dX = np.diff(X, axis=0)
     expect = Jf.dot(V.T)
-    if not np.array_equal(dX, expect):
+    # drift: the model also has explicit ODE terms, which a tau-leap step adds as f_ode*tau (not an event); only the event part is
+    # checked then, and only in exact mode (which ignores the drift)
+    if not (drift and not exact) and not np.array_equal(dX, expect):
         k = int(np.argmax(np.any(dX != expect, axis=1)))
         v("state change differs from state-change matrix x counts", step=k, dx=dX[k].tolist(), expected=expect[k].tolist(),
           counts=Jf[k].tolist(), state=X[k].tolist())
@@ -126,7 +128,7 @@ def steplog_grammar(log):
     return bad
 
 
-def run_config(m, spec, V, x0, horizon, cfg, hostile=None, closed=False, grid=None, check_limits=True):
+def run_config(m, spec, V, x0, horizon, cfg, hostile=None, closed=False, grid=None, check_limits=True, raises="violation", drift=False):
     """Run solve_stochast under the probes for one configuration and check every path.
     cfg: {exact, n, seed, pre_tau, epsilon}.  Returns dict(witnesses, counters, stats list, inconclusive, paths, out)."""
     from verifkit.mon.probes import MonitorViolation, SimProbe, StepCap
@@ -149,6 +151,11 @@ def run_config(m, spec, V, x0, horizon, cfg, hostile=None, closed=False, grid=No
         res["witnesses"].append(dict({"what": e.what, "config": cfg}, **e.detail))
         return res
     except Exception as e:
+        if raises != "violation":
+            # the property judged speaks about the paths produced; "the simulation returns" is C04's / C15's clause
+            res["inconclusive"] = "simulation-raised (no path to judge; C04 decides 'returns'): " + type(e).__name__
+            probe.counters["simulation_raised"] = probe.counters.get("simulation_raised", 0) + 1
+            return res
         res["witnesses"].append({"what": "solve_stochast raised on a model inside the quantifier", "config": cfg,
                                  "error": short_exc(e), "tb": tb_tail(e)})
         return res
@@ -158,10 +165,34 @@ def run_config(m, spec, V, x0, horizon, cfg, hostile=None, closed=False, grid=No
         return res
     for i in range(cfg["n"]):
         bad, st = check_path(probe.paths[i], x0, 0.0, V, cfg["exact"], horizon=horizon,
-                             limits=spec["limits"] if check_limits else None, closed=closed, steplog=probe.steplog[i])
+                             limits=spec["limits"] if check_limits else None, closed=closed, steplog=probe.steplog[i], drift=drift)
         bad += steplog_grammar(probe.steplog[i])
         for b in bad:
             b["config"] = cfg
         res["witnesses"].extend(bad[:3])
         res["stats"].append(st)
     return res
+
+
+# ---- pinned reproducer of known finding K-02 (adaptive tau-leap step unbounded): one birth at a constant rate next to a death whose
+# rate q*exp(-r*A) is ~1e-27 at A=60; the rate-change statistics are tiny but non-zero, so the first adaptive step is ~1e25 long and
+# numpy's Poisson sampler refuses tau*rate.  Deterministic (fails on the first step for every seed).
+K02_SPEC = {"states": ["A"], "state_decl": "list", "params": ["p", "q", "r"], "param_decl": "list", "derived": [],
+            "events": [{"rate": "p", "trans": [["B", None, "A", "1"]]}, {"rate": "q*exp(-r*A)", "trans": [["D", "A", None, "1"]]}],
+            "odes": [], "limits": [[0, None]]}
+
+
+def pinned_k02(gridded):
+    from verifkit.common import canon_hash, short_exc, tb_tail
+    theta, x0 = [5.0, 1.0, 1.0], [60]
+    m = build_sim(K02_SPEC, theta, x0)
+    cfg = {"exact": False, "n": 1, "seed": 1, "pre_tau": None, "epsilon": None, "pinned": "K-02"}
+    np.random.seed(1)
+    sample = {"spec": K02_SPEC, "theta": theta, "x0": x0, "horizon": 2.0, "configs": [cfg], "gridded": gridded}
+    try:
+        with contextlib.redirect_stdout(io.StringIO()):
+            m.solve_stochast(np.linspace(0, 2.0, 5) if gridded else 2.0, 1, exact=False, full_output=True)
+    except Exception as e:
+        return {"status": "violated", "sample": sample, "key": canon_hash(sample), "classes": ["pinned-K-02"], "counters": {"pinned_reproducers_run": 1},
+                "witnesses": [{"what": "solve_stochast raised on a model inside the quantifier", "config": cfg, "error": short_exc(e), "tb": tb_tail(e)}]}
+    return {"status": "held", "sample": sample, "key": canon_hash(sample), "classes": ["pinned-K-02"], "counters": {"pinned_reproducers_run": 1}}
